@@ -466,8 +466,16 @@ func c04(c *Ctx) {
 				if r == nil {
 					return false
 				}
-				_, isSl := unparen(r).(*ast.SliceExpr)
-				return isSl
+				if _, isSl := unparen(r).(*ast.SliceExpr); isSl {
+					return true
+				}
+				// library form: queue = slices.Delete(queue, 0, k) removes the oldest k
+				if call, ok := unparen(r).(*ast.CallExpr); ok && isCallTo(info, call, "slices.Delete") && len(call.Args) == 3 && isQ(call.Args[0]) {
+					if z, isC := constInt(info, call.Args[1]); isC && z == 0 {
+						return true
+					}
+				}
+				return false
 			}))
 			capZero := func(e *GEdge) bool {
 				return edgeImplies(e, func(cnd ast.Expr, pol int) bool {
@@ -697,6 +705,23 @@ func c04(c *Ctx) {
 		if fn == nil {
 			continue
 		}
+		// the index map may be maintained in a helper the loop body was moved to
+		fn, _ = ix.workFunc(fn, func(n ast.Node) bool {
+			as, ok := n.(*ast.AssignStmt)
+			if !ok || len(as.Lhs) != 1 {
+				return false
+			}
+			ie, ok := unparen(as.Lhs[0]).(*ast.IndexExpr)
+			if !ok {
+				return false
+			}
+			mt, ok := info.Types[ie.X].Type.Underlying().(*types.Map)
+			if !ok {
+				return false
+			}
+			b, ok := mt.Elem().Underlying().(*types.Basic)
+			return ok && b.Kind() == types.Int
+		})
 		n, bad, pos := indexPairing(info, fn)
 		site := at(ix.M, fn.Pos())
 		if bad != "" {
@@ -745,9 +770,22 @@ func c04(c *Ctx) {
 	addDropped := ix.Func("(*recordingSpan).addDroppedAttr")
 	if fLimit != nil && fAttrs != nil && setA != nil && over != nil && addDropped != nil {
 		isAttrs := func(e ast.Expr) bool { return isField(info, e, fAttrs) }
-		// addOverCapAttrs: append dominated by len(attrs) < limit(param 0)
-		g := ix.FG(over)
+		// addOverCapAttrs: append dominated by len(attrs) < limit(param 0) — in the function itself or in the per-attribute helper
+		// its loop body was moved to (the limit is then the helper's parameter that receives it)
 		lim := over.Obj.Type().(*types.Signature).Params().At(0)
+		overWork := over
+		{
+			w, pm := ix.workFunc(over, func(n ast.Node) bool {
+				r := assignRHS(n, isAttrs)
+				return r != nil && isAppendTo(info, r, isAttrs)
+			})
+			if w != over {
+				if p := pm(lim); p != nil {
+					overWork, lim = w, p
+				}
+			}
+		}
+		g := ix.FG(overWork)
 		below := func(e *GEdge) bool {
 			return edgeImplies(e, func(cnd ast.Expr, pol int) bool {
 				l, op, r, ok := cmpNorm(cnd, pol)
